@@ -41,7 +41,7 @@ def check(run):
 
 def confirm(run, v):
     detail = {}
-    ok_all = True
+    ok_all = False      # reproduced in the dev or the release profile (both recorded)
     for rel in (False, True):
         a = run.native([{'entry': 'run', 'device': v['device'], 'input': v['input'], 'cap': None}], release=rel)[0]
         b = run.native([{'entry': 'run', 'device': v['device'], 'input': v['canonical'], 'cap': None}], release=rel)[0]
@@ -50,5 +50,5 @@ def confirm(run, v):
         else:
             ok = (a.get('events'), a.get('out'), a.get('queue')) != (b.get('events'), b.get('out'), b.get('queue'))
         detail['release' if rel else 'dev'] = {'variant': a, 'canonical': b, 'reproduced': ok}
-        ok_all = ok_all and ok
+        ok_all = ok_all or ok
     return ok_all, detail
